@@ -29,6 +29,8 @@ def run_case(c):
             fn = os.path.join(d, "p." + c["from_file"])
             (fr.save_fil if c["from_file"] == "fil" else fr.save_h5)(fn)
             fr = stg.Frame(waterfall=fn)
+        if c.get("t_start_zero"):
+            fr.t_start = 0.0            # a relative time origin, assigned as Cadence.overwrite_times assigns start times
         if c.get("ts_origin"):
             fr.ts = fr.ts + c["ts_origin"]
         if c.get("meta_drift") is not None:
